@@ -18,7 +18,9 @@ Monitors (each counts its own evaluations)
   free-symbols-after            symbols of the result == symbols of the model payloads
   substituted-evaluates         eval(d.subs(s)) returns
   eval-commutes                 eval(d.subs(s)) == sympy-substituted eval(d)   (numerically)
-  tensor-subs-model             eval(d).subs(s) (Tensor.subs) == the same model
+  tensor-subs-model             eval(d).subs(s) (Tensor.subs, on the sympified array) == the same model
+  tensor-subs-raw               the same on the evaluation as returned (plain numbers included)
+  cqmap-subs-model              the same on the CQMap of a mixed evaluation
   lambdify-equals-subs-diagram  structural equality up to float rounding
   lambdify-eval-model           eval(d.lambdify(xs)(vs)) == model
   lambdify-equals-subs-eval     eval(lambdified) == eval(substituted)
@@ -39,7 +41,7 @@ RULE = ("case = (arm, random symbolic diagram with <=3 wires and <=6 boxes "
         "non-trivial = the diagram has >=1 box with a symbol and at least one "
         "substitution reached the semantic comparison; distinct by the repr "
         "of the diagram and of the substitutions.")
-SIZES = {"quick": (16, 26), "thorough": (16, 420)}
+SIZES = {"quick": (16, 26), "thorough": (16, 300)}
 TIMEOUT = {"quick": 900, "thorough": 5400}
 COVER = {
     "discopy.cat:rsubs": 1.0,
@@ -58,12 +60,13 @@ COVER = {
     "discopy.tensor:Tensor.subs": 1.0,
 }
 MIN_EVALS = {
-    "quick": {"free-symbols-exact": 300, "attributes-preserved": 3000,
-              "subs-box-data": 2000, "eval-commutes": 800,
-              "tensor-subs-model": 800, "lambdify-eval-model": 150,
-              "lambdify-equals-subs-diagram": 150,
-              "total-reports-no-symbols": 300},
-    "thorough": {"eval-commutes": 12000, "lambdify-eval-model": 2500}}
+    "quick": {"free-symbols-exact": 1400, "attributes-preserved": 8500,
+              "subs-box-data": 4500, "eval-commutes": 2000,
+              "tensor-subs-model": 1700, "lambdify-eval-model": 280,
+              "lambdify-equals-subs-diagram": 300,
+              "total-reports-no-symbols": 1300},
+    "thorough": {"eval-commutes": 20000, "tensor-subs-model": 15000,
+                 "lambdify-eval-model": 2500, "subs-box-data": 40000}}
 ASSUMPTIONS = [
     "substituted values are real (python floats/ints, sympy numbers) or "
     "symbols/expressions; lambdified diagrams are called on python floats and "
@@ -77,7 +80,14 @@ ASSUMPTIONS = [
     "ZX diagrams are evaluated by the harness's own interpreter (Z/X/H/SWAP/"
     "scalar); sums and bubbles are outside this property's quantifier",
     "dagger flags are compared as booleans (None, the self-adjoint marker, "
-    "reads as False)"]
+    "reads as False)",
+    "when eval(d.subs(s)) crashes because a rotation keeps a symbol-free sympy "
+    "phase (listed finding), the harness casts those phases to float itself "
+    "and still compares the values (counter eval-commutes-via-harness-cast)",
+    "per shard at most 10 violations per listed mechanism are recorded "
+    "verbatim, further ones matching the same predicate are counted only "
+    "(counters failure-not-recorded-repeat-of:*); unlisted violations are "
+    "always recorded"]
 TECHNIQUE = ("runtime monitoring: sympy substitution of the symbolic "
              "evaluation and of box payloads as reference model, compared "
              "numerically at random real points")
